@@ -41,6 +41,13 @@ held = [{"a": "Start", "p": "r1", "k": "k1", "d": "d1", "m": "GET"}, {"a": "Look
        [{"a": "GetStep", "p": "r3", "res": "notfound"}, {"a": "ReleaseIf", "p": "r3"}, {"a": "ReleaseIf", "p": "r3"},
         {"a": "FetchEnd", "p": "r1", "out": "cacheable", "ttl": 2}] + R("r1")
 add(P, "purge_with_waiter_and_holder", two, held)
+# two caches on ONE store; a purge without a cache name while a fetch of the key is in flight in one of them and completes after
+# the first cache has been purged: when the purge has returned no copy is left anywhere (both orders of visiting the caches)
+shared = {"disps": [{"name": "d1", "limit": 0, "hfp": 1, "store": True, "store_name": "both"}, {"name": "d2", "limit": 0, "hfp": 1, "store": True, "store_name": "both"}], "keys": {"k1": 1}}
+for late, other in (("d2", "d1"), ("d1", "d2")):
+    steps = fetch("r1", "k1", other) + [{"a": "Start", "p": "r2", "k": "k1", "d": late, "m": "GET"}, {"a": "Lookup", "p": "r2"}, {"a": "GetStep", "p": "r2", "res": "notfound"}, {"a": "UpStart", "p": "r2"},
+             {"a": "PurgeStart", "p": "p1", "k": "k1", "d": ""}] + R("p1", 4) + [{"a": "FetchEndIf", "p": "r2", "out": "cacheable", "ttl": 2}] + R("r2") + R("p1", 8) + ask("r3", "k1", other, "ok") + R("r3")
+    add(P, "unnamed_shared_store_" + late + "_late", shared, steps)
 two_nostore = json.loads(json.dumps(two)); two_nostore["disps"][0]["store"] = False
 add(P, "purge_with_waiter_and_holder_nostore", two_nostore, [dict(x, res="none") if x.get("a") == "GetStep" else x for x in held])
 json.dump(P, open(os.path.join(here, "purge_directed.json"), "w"), indent=0)
